@@ -7,6 +7,8 @@ CONSTANTS
   Parents <- SimParents
   CtxOf <- McCtxOf
   Removable <- SimRemovable
+  BeginKinds <- AllKinds
+  TrackH = "none"
   Tok = {0, 1, 2}
   MaxTx = 4
   MaxOps = 4
